@@ -268,6 +268,11 @@ let model_line out w line =
          | _ -> ())
     | "M" ->
         (match str t with
+         | "encodearr" ->
+             let b = unhex (str t) in
+             let rec take i l = if i = 0 then [] else match l with [] -> [] | x :: r -> x :: take (i - 1) r in
+             let b31 = take 31 b in
+             pr_string out (encode (b31 @ List.init (32 - List.length b31) (fun _ -> N0)))
          | "encode" | "ets" -> pr_string out (encode (unhex (str t)))
          | "ete" -> out ("E " ^ pr_elem (ete (unhex (str t))))
          | "lookup" ->
